@@ -3,7 +3,7 @@
 From Coq Require Import List NArith ZArith Bool Lia Arith.
 From Okv Require Import Model.Lit Model.LitSpec Model.Syntax Model.Comb Model.ParseExpr Model.Display
   Model.DocGrammar Model.RoundTripSpec
-  Proofs.LitShowGen Proofs.CombSpec Proofs.DocAccept Proofs.RoundTripBase Proofs.RoundTripNum.
+  Proofs.LitShowGen Proofs.CombSpec Proofs.ParseExprErase Proofs.DocAccept Proofs.RoundTripBase Proofs.RoundTripNum.
 Import ListNotations.
 Open Scope N_scope.
 
@@ -192,25 +192,54 @@ Proof. intros []; reflexivity. Qed.
 
 Definition mk (l : s_expr) (o : s_binop) (r : s_expr) : s_expr := SBinary o l r.
 
-Lemma loop_stop : forall f (p : parser s_expr) (sp : parser s_binop) acc i r,
-  sp i = PErr false 0 r -> foldl1_loop f p sp mk acc i = POk acc i.
-Proof. intros. destruct f; simpl; rewrite H; reflexivity. Qed.
+Lemma loop_stop : forall f (p : parser s_expr) (opp : parser s_binop) acc i r,
+  sep opp i = PErr false 0 r -> chain_loop f opp p acc i = POk acc i.
+Proof. intros. unfold sep in H. destruct f; cbn [chain_loop]; rewrite H; reflexivity. Qed.
 
-Lemma loop_step : forall f (p : parser s_expr) (sp : parser s_binop) acc i op x b r,
-  sp i = POk op x -> (length x < length i)%nat -> p x = POk b r ->
-  foldl1_loop (S f) p sp mk acc i = foldl1_loop f p sp mk (SBinary op acc b) r.
-Proof. intros. simpl. rewrite H. rewrite consumed_true by assumption. rewrite H1. reflexivity. Qed.
+Lemma loop_step : forall f (p : parser s_expr) (opp : parser s_binop) acc i op x b r,
+  sep opp i = POk op x -> p x = POk b r ->
+  fits_under (Nat.max (expr_height acc) (expr_height b)) = true ->
+  chain_loop (S f) opp p acc i = chain_loop f opp p (SBinary op acc b) r.
+Proof. intros. unfold sep in H. cbn [chain_loop]. rewrite H, H0, H1. reflexivity. Qed.
+
+(* the first operand, then the loop *)
+Definition chain_from (f : nat) (opp : parser s_binop) (p : parser s_expr) : parser s_expr :=
+  infixl_e f opp p.
+
+Scheme vexpr_ind2 := Induction for s_vexpr Sort Prop
+  with expr_ind2 := Induction for s_expr Sort Prop.
+Combined Scheme vexpr_expr_ind from vexpr_ind2, expr_ind2.
+
+(* trees that differ in the spelling of numbers only have the same shape *)
+Lemma same_height :
+  (forall v v', same_v v v' -> vexpr_height v' = vexpr_height v) /\
+  (forall e e', same_e e e' -> expr_height e' = expr_height e).
+Proof.
+  apply vexpr_expr_ind.
+  - intros e IH [e' | a'] H; simpl in H; [| contradiction]. cbn [vexpr_height]. f_equal. apply IH. exact H.
+  - intros a [e' | a'] H; simpl in H; [contradiction | reflexivity].
+  - intros e IH [e1 | o l r | v] H; simpl in H; try contradiction. cbn [expr_height]. f_equal. apply IH. exact H.
+  - intros o l IHl r IHr [e1 | o' l' r' | v] H; simpl in H; try contradiction.
+    destruct H as (_ & Hl & Hr). cbn [expr_height]. rewrite (IHl _ Hl), (IHr _ Hr). reflexivity.
+  - intros v IH [e1 | o l r | v'] H; simpl in H; try contradiction. cbn [expr_height]. apply IH. exact H.
+Qed.
+Definition same_v_height := proj1 same_height.
+Definition same_e_height := proj2 same_height.
+
+Lemma fits_under_le : forall h, (S h <= max_expr_height)%nat -> fits_under h = true.
+Proof. intros h H. unfold fits_under. apply Nat.ltb_lt. lia. Qed.
+
+Notation HMAX := max_expr_height.
 
 Section Expr.
 Variable fuel : nat.
 
 Definition VE (d : nat) : parser s_vexpr := value_expr_d fuel d.
-Definition U (d : nat) : parser s_expr := unary_expr (VE d).
-Definition M (d : nat) : parser s_expr := infixl fuel mul_op (U d).
-Definition A (d : nat) : parser s_expr := infixl fuel add_op (M d).
+Definition U (d : nat) : parser s_expr := unary_e (VE d).
+Definition M (d : nat) : parser s_expr := infixl_e fuel mul_op (U d).
+Definition A (d : nat) : parser s_expr := infixl_e fuel add_op (M d).
 
-Lemma VE_paren : forall d i, VE (S d) (40 :: i) =
-  pmap SParen (paren (delimited space0 (A d) space0)) (40 :: i).
+Lemma VE_paren : forall d i, VE (S d) (40 :: i) = paren_e (A d) (40 :: i).
 Proof. reflexivity. Qed.
 
 Lemma VE_amount : forall d c i, (c =? 40) = false -> VE d (c :: i) = pmap SAmount amount (c :: i).
@@ -221,41 +250,47 @@ Definition no_add (k : str) : Prop := starts_not is_add_char (skip_sp k).
 
 (* the statements, per level *)
 Definition V_ok (v : s_vexpr) : Prop := forall d k,
-  wf_v v = true -> (vexpr_depth v <= d)%nat -> follow_v v k -> (length (pv v) <= fuel)%nat ->
+  wf_v v = true -> (vexpr_depth v <= d)%nat -> (vexpr_height v <= HMAX)%nat ->
+  follow_v v k -> (length (pv v) <= fuel)%nat ->
   exists v', VE d (pv v ++ k) = POk v' (rest_vexpr v k) /\ same_v v v'.
 
 Definition U_ok (e : s_expr) : Prop := forall d k,
-  wf_e LUn e = true -> (expr_depth e <= d)%nat -> follow_e e k -> (length (pe e) <= fuel)%nat ->
+  wf_e LUn e = true -> (expr_depth e <= d)%nat -> (expr_height e <= HMAX)%nat ->
+  follow_e e k -> (length (pe e) <= fuel)%nat ->
   exists e', U d (pe e ++ k) = POk e' (rest_e e k) /\ same_e e e'.
 
 Definition M_open (e : s_expr) : Prop := forall d k f,
-  wf_e LMul e = true -> (expr_depth e <= d)%nat -> follow_e e k -> (length (pe e) <= fuel)%nat ->
-  exists e', separated_foldl1 (f + nops is_mul e) (U d) (sep mul_op) mk (pe e ++ k)
-             = foldl1_loop f (U d) (sep mul_op) mk e' (rest_e e k) /\ same_e e e'.
+  wf_e LMul e = true -> (expr_depth e <= d)%nat -> (expr_height e <= HMAX)%nat ->
+  follow_e e k -> (length (pe e) <= fuel)%nat ->
+  exists e', infixl_e (f + nops is_mul e) mul_op (U d) (pe e ++ k)
+             = chain_loop f mul_op (U d) e' (rest_e e k) /\ same_e e e'.
 
 Definition M_ok (e : s_expr) : Prop := forall d k,
-  wf_e LMul e = true -> (expr_depth e <= d)%nat -> follow_e e k -> no_mul k ->
+  wf_e LMul e = true -> (expr_depth e <= d)%nat -> (expr_height e <= HMAX)%nat ->
+  follow_e e k -> no_mul k ->
   (length (pe e) <= fuel)%nat ->
   exists e', M d (pe e ++ k) = POk e' (rest_e e k) /\ same_e e e'.
 
 Definition A_open (e : s_expr) : Prop := forall d k f,
-  wf_e LAdd e = true -> (expr_depth e <= d)%nat -> follow_e e k -> no_mul k ->
+  wf_e LAdd e = true -> (expr_depth e <= d)%nat -> (expr_height e <= HMAX)%nat ->
+  follow_e e k -> no_mul k ->
   (length (pe e) <= fuel)%nat ->
-  exists e', separated_foldl1 (f + nops is_add e) (M d) (sep add_op) mk (pe e ++ k)
-             = foldl1_loop f (M d) (sep add_op) mk e' (rest_e e k) /\ same_e e e'.
+  exists e', infixl_e (f + nops is_add e) add_op (M d) (pe e ++ k)
+             = chain_loop f add_op (M d) e' (rest_e e k) /\ same_e e e'.
 
 Definition A_ok (e : s_expr) : Prop := forall d k,
-  wf_e LAdd e = true -> (expr_depth e <= d)%nat -> follow_e e k -> no_mul k -> no_add k ->
+  wf_e LAdd e = true -> (expr_depth e <= d)%nat -> (expr_height e <= HMAX)%nat ->
+  follow_e e k -> no_mul k -> no_add k ->
   (length (pe e) <= fuel)%nat ->
   exists e', A d (pe e ++ k) = POk e' (rest_e e k) /\ same_e e e'.
 
 Lemma M_close : forall e, M_open e -> M_ok e.
 Proof.
-  intros e H d k W D F NM L.
+  intros e H d k W D HT F NM L.
   pose proof (nops_le is_mul e) as NL.
-  destruct (H d k (fuel - nops is_mul e)%nat W D F L) as (e' & E & S).
+  destruct (H d k (fuel - nops is_mul e)%nat W D HT F L) as (e' & E & S).
   exists e'. split; [| exact S].
-  unfold M, infixl. fold (sep mul_op). fold mk.
+  unfold M.
   replace fuel with (fuel - nops is_mul e + nops is_mul e)%nat at 1 by lia.
   rewrite E.
   destruct (sep_fail mul_op (rest_e e k)) as [r Er].
@@ -265,11 +300,11 @@ Qed.
 
 Lemma A_close : forall e, A_open e -> A_ok e.
 Proof.
-  intros e H d k W D F NM NA L.
+  intros e H d k W D HT F NM NA L.
   pose proof (nops_le is_add e) as NL.
-  destruct (H d k (fuel - nops is_add e)%nat W D F NM L) as (e' & E & S).
+  destruct (H d k (fuel - nops is_add e)%nat W D HT F NM L) as (e' & E & S).
   exists e'. split; [| exact S].
-  unfold A, infixl. fold (sep add_op). fold mk.
+  unfold A.
   replace fuel with (fuel - nops is_add e + nops is_add e)%nat at 1 by lia.
   rewrite E.
   destruct (sep_fail add_op (rest_e e k)) as [r Er].
@@ -294,15 +329,24 @@ Qed.
 Lemma chain_step : forall (p : parser s_expr) (opp : parser s_binop) f op l l' r r' k x,
   (forall y, opp (binop_char op :: 32 :: y) = POk op (32 :: y)) ->
   p (pe r ++ k) = POk r' x ->
-  foldl1_loop (S f) p (sep opp) mk l' (rest_e l ([32; binop_char op; 32] ++ pe r ++ k))
-  = foldl1_loop f p (sep opp) mk (SBinary op l' r') x.
+  fits_under (Nat.max (expr_height l') (expr_height r')) = true ->
+  chain_loop (S f) opp p l' (rest_e l ([32; binop_char op; 32] ++ pe r ++ k))
+  = chain_loop f opp p (SBinary op l' r') x.
 Proof.
-  intros p opp f op l l' r r' k x Hop Hp.
-  eapply loop_step; [| | exact Hp].
-  - apply (sep_ok opp op _ (pe r ++ k)); [apply Hop | apply pe_not_sp |].
-    rewrite skip_rest_e. apply skip_op.
-  - pose proof (rest_e_length l ([32; binop_char op; 32] ++ pe r ++ k)) as L.
-    rewrite skip_op in L. cbn [length] in L. lia.
+  intros p opp f op l l' r r' k x Hop Hp Hh.
+  eapply loop_step; [| exact Hp | exact Hh].
+  apply (sep_ok opp op _ (pe r ++ k)); [apply Hop | apply pe_not_sp |].
+  rewrite skip_rest_e. apply skip_op.
+Qed.
+
+Lemma height_binary : forall op l r l' r', (expr_height (SBinary op l r) <= HMAX)%nat ->
+  same_e l l' -> same_e r r' ->
+  (expr_height l <= HMAX)%nat /\ (expr_height r <= HMAX)%nat /\
+  fits_under (Nat.max (expr_height l') (expr_height r')) = true.
+Proof.
+  intros op l r l' r' H Sl Sr. cbn [expr_height] in H.
+  rewrite (same_e_height _ _ Sl), (same_e_height _ _ Sr).
+  split; [lia |]. split; [lia |]. apply fits_under_le. exact H.
 Qed.
 
 Lemma depth_binary : forall op l r d, (expr_depth (SBinary op l r) <= d)%nat ->
@@ -315,70 +359,76 @@ Proof. intros op l r H. rewrite pe_binary, !app_length in H. lia. Qed.
 
 Lemma M_binary : forall op l r, is_mul op = true -> M_open l -> U_ok r -> M_open (SBinary op l r).
 Proof.
-  intros op l r Hop Hl Hr d k f W D F L.
+  intros op l r Hop Hl Hr d k f W D HT F L.
   assert (W' : wf_e LMul l = true /\ wf_e LUn r = true).
   { destruct op; try discriminate; simpl in W; apply andb_true_iff in W; exact W. }
   destruct W' as [Wl Wr]. destruct (depth_binary _ _ _ _ D) as [Dl Dr].
+  assert (HT' : (expr_height l <= HMAX)%nat /\ (expr_height r <= HMAX)%nat) by (cbn [expr_height] in HT; lia).
+  destruct HT' as [Tl Tr].
   destruct (len_binary _ _ _ L) as [Ll Lr]. simpl in F.
-  destruct (Hr d k Wr Dr F Lr) as (r' & Er & Sr).
-  destruct (Hl d ([32; binop_char op; 32] ++ pe r ++ k) (S f) Wl Dl
+  destruct (Hr d k Wr Dr Tr F Lr) as (r' & Er & Sr).
+  destruct (Hl d ([32; binop_char op; 32] ++ pe r ++ k) (S f) Wl Dl Tl
               (good_follow_e _ _ (op_follow_good _ _)) Ll) as (l' & El & Sl).
+  destruct (height_binary op l r l' r' HT Sl Sr) as (_ & _ & Hfit).
   exists (SBinary op l' r'). split; [| simpl; auto].
   rewrite pe_binary, <- !app_assoc. cbn [nops]. rewrite Hop.
   replace (f + S (nops is_mul l))%nat with (S f + nops is_mul l)%nat by lia.
   rewrite El. cbn [rest_e].
-  apply chain_step; [| exact Er].
+  apply chain_step; [| exact Er | exact Hfit].
   intros y. apply mul_op_ok. exact Hop.
 Qed.
 
 Lemma M_unary : forall e, (match e with SBinary _ _ _ => False | _ => True end) -> U_ok e -> M_open e.
 Proof.
-  intros e Hne Hu d k f W D F L.
+  intros e Hne Hu d k f W D HT F L.
   assert (Wu : wf_e LUn e = true) by (destruct e; [exact W | contradiction | exact W]).
-  destruct (Hu d k Wu D F L) as (e' & E & S). exists e'. split; [| exact S].
+  destruct (Hu d k Wu D HT F L) as (e' & E & S). exists e'. split; [| exact S].
   assert (N0 : nops is_mul e = O) by (destruct e; [reflexivity | contradiction | reflexivity]).
-  rewrite N0. unfold separated_foldl1. rewrite E. rewrite Nat.add_0_r. reflexivity.
+  rewrite N0. unfold infixl_e at 1. rewrite E. rewrite Nat.add_0_r. reflexivity.
 Qed.
 
 Lemma A_binary : forall op l r, is_add op = true -> A_open l -> M_ok r -> A_open (SBinary op l r).
 Proof.
-  intros op l r Hop Hl Hr d k f W D F NM L.
+  intros op l r Hop Hl Hr d k f W D HT F NM L.
   assert (W' : wf_e LAdd l = true /\ wf_e LMul r = true).
   { destruct op; try discriminate; simpl in W; apply andb_true_iff in W; exact W. }
   destruct W' as [Wl Wr]. destruct (depth_binary _ _ _ _ D) as [Dl Dr].
+  assert (HT' : (expr_height l <= HMAX)%nat /\ (expr_height r <= HMAX)%nat) by (cbn [expr_height] in HT; lia).
+  destruct HT' as [Tl Tr].
   destruct (len_binary _ _ _ L) as [Ll Lr]. simpl in F.
-  destruct (Hr d k Wr Dr F NM Lr) as (r' & Er & Sr).
+  destruct (Hr d k Wr Dr Tr F NM Lr) as (r' & Er & Sr).
   assert (NM' : no_mul ([32; binop_char op; 32] ++ pe r ++ k)).
   { unfold no_mul. rewrite skip_op. destruct op; try discriminate; reflexivity. }
-  destruct (Hl d ([32; binop_char op; 32] ++ pe r ++ k) (S f) Wl Dl
+  destruct (Hl d ([32; binop_char op; 32] ++ pe r ++ k) (S f) Wl Dl Tl
               (good_follow_e _ _ (op_follow_good _ _)) NM' Ll) as (l' & El & Sl).
+  destruct (height_binary op l r l' r' HT Sl Sr) as (_ & _ & Hfit).
   exists (SBinary op l' r'). split; [| simpl; auto].
   rewrite pe_binary, <- !app_assoc. cbn [nops]. rewrite Hop.
   replace (f + S (nops is_add l))%nat with (S f + nops is_add l)%nat by lia.
   rewrite El. cbn [rest_e].
-  apply chain_step; [| exact Er].
+  apply chain_step; [| exact Er | exact Hfit].
   intros y. apply add_op_ok. exact Hop.
 Qed.
 
 Lemma A_mul : forall e, (match e with SBinary op _ _ => is_add op = false | _ => True end) ->
   M_ok e -> A_open e.
 Proof.
-  intros e Hne Hm d k f W D F NM L.
+  intros e Hne Hm d k f W D HT F NM L.
   assert (Wm : wf_e LMul e = true).
   { destruct e as [e1 | op l r | v]; [exact W | | exact W]. destruct op; try discriminate; exact W. }
-  destruct (Hm d k Wm D F NM L) as (e' & E & S). exists e'. split; [| exact S].
+  destruct (Hm d k Wm D HT F NM L) as (e' & E & S). exists e'. split; [| exact S].
   assert (N0 : nops is_add e = O).
   { destruct e as [e1 | op l r | v]; [reflexivity | | reflexivity]. simpl. rewrite Hne. reflexivity. }
-  rewrite N0. unfold separated_foldl1. rewrite E. rewrite Nat.add_0_r. reflexivity.
+  rewrite N0. unfold infixl_e at 1. rewrite E. rewrite Nat.add_0_r. reflexivity.
 Qed.
 
 (* ---- operands ---- *)
 Lemma U_value : forall v, V_ok v -> U_ok (SValue v).
 Proof.
-  intros v Hv d k W D F L. rewrite pe_value in *.
+  intros v Hv d k W D HT F L. rewrite pe_value in *.
   assert (Wv : wf_v v = true).
   { destruct v as [e | a]; simpl in *; [exact W |]. apply andb_true_iff in W. tauto. }
-  destruct (Hv d k Wv D F L) as (v' & E & S).
+  destruct (Hv d k Wv D HT F L) as (v' & E & S).
   exists (SValue v'). split; [| exact S].
   (* the first character is not a minus sign *)
   assert (H : exists c r, pv v = c :: r /\ (c =? 45) = false).
@@ -389,26 +439,28 @@ Proof.
       rewrite W in Hc. exists c, r. split; [exact Ea |].
       rewrite N.eqb_sym. apply digit_not_minus. exact Hc. }
   destruct H as (c & r & Ec & Hc).
-  unfold U, unary_expr. rewrite Ec. cbn [app]. rewrite Hc.
+  unfold U, unary_e. rewrite Ec. cbn [app]. rewrite Hc.
   change (c :: r ++ k) with ((c :: r) ++ k). rewrite <- Ec.
   apply pmap_ok. exact E.
 Qed.
 
 Lemma U_neg : forall v, V_ok v -> U_ok (SUnaryNeg (SValue v)).
 Proof.
-  intros v Hv d k W D F L. simpl in W, D, F. rewrite pe_unary, pe_value in *.
+  intros v Hv d k W D HT F L. simpl in W, D, F. cbn [expr_height] in HT. rewrite pe_unary, pe_value in *.
   assert (Lv : (length (pv v) <= fuel)%nat) by (simpl in L; lia).
-  destruct (Hv d k W D F Lv) as (v' & E & S).
+  destruct (Hv d k W D ltac:(lia) F Lv) as (v' & E & S).
   exists (SUnaryNeg (SValue v')). split; [| exact S].
-  unfold U, unary_expr. cbn [app]. rewrite N.eqb_refl.
-  unfold negate_expr, preceded, pmap, bind. rw (chr_ok 45 (pv v ++ k)).
-  fold (VE d). rw E. reflexivity.
+  unfold U, unary_e. cbn [app]. rewrite N.eqb_refl.
+  unfold negate_e, try_map, preceded, bind. rw (chr_ok 45 (pv v ++ k)).
+  fold (VE d). rw E.
+  rewrite (fits_under_le (vexpr_height v')) by (rewrite (same_v_height _ _ S); exact HT).
+  reflexivity.
 Qed.
 
 (* ---- value expressions ---- *)
 Lemma V_amount : forall a, V_ok (SAmount a).
 Proof.
-  intros a d k W D F L. simpl in W, F.
+  intros a d k W D _ F L. simpl in W, F.
   destruct (amount_fmt a k W F) as (a' & E & S).
   exists (SAmount a'). split; [| exact S].
   rewrite pv_amount in *. destruct (fmt_amount_head a) as (c & r & Ea & Hc).
@@ -425,25 +477,24 @@ Proof. intros k. unfold good_follow. rewrite skip_sp_id by reflexivity. repeat s
 
 Lemma V_paren : forall e, A_ok e -> V_ok (SParen e).
 Proof.
-  intros e He d k W D F L. simpl in W.
+  intros e He d k W D HT F L. simpl in W. cbn [vexpr_height] in HT.
   destruct d as [| d]; [simpl in D; lia |]. assert (De : (expr_depth e <= d)%nat) by (simpl in D; lia).
   assert (Le : (length (pe e) <= fuel)%nat) by (rewrite pv_paren in L; simpl in L; rewrite app_length in L; lia).
-  destruct (He d (41 :: k) W De (good_follow_e _ _ (close_paren_good k))
+  destruct (He d (41 :: k) W De ltac:(lia) (good_follow_e _ _ (close_paren_good k))
               ltac:(unfold no_mul; rewrite skip_sp_id; reflexivity)
               ltac:(unfold no_add; rewrite skip_sp_id; reflexivity) Le) as (e' & E & S).
   exists (SParen e'). split; [| exact S].
   rewrite pv_paren. cbn [app]. rewrite <- app_assoc. cbn [app]. rewrite VE_paren.
-  apply pmap_ok. unfold paren, delimited, bind. rw (chr_ok 40 (pe e ++ 41 :: k)).
+  unfold paren_e, try_map, paren, delimited, bind. rw (chr_ok 40 (pe e ++ 41 :: k)).
   rw (space0_none (pe e ++ 41 :: k) (pe_not_sp e _)).
   rw E. rewrite (rest_e_nosp e (41 :: k)) by reflexivity.
   rw (space0_none (41 :: k) ltac:(reflexivity)).
+  unfold ret. rw (chr_ok 41 k).
+  rewrite (fits_under_le (expr_height e')) by (rewrite (same_e_height _ _ S); exact HT).
   reflexivity.
 Qed.
 
 (* ---- all levels, by induction on the tree ---- *)
-Scheme vexpr_ind2 := Induction for s_vexpr Sort Prop
-  with expr_ind2 := Induction for s_expr Sort Prop.
-Combined Scheme vexpr_expr_ind from vexpr_ind2, expr_ind2.
 
 Definition E_all (e : s_expr) : Prop :=
   (wf_e LUn e = true -> U_ok e) /\ (wf_e LMul e = true -> M_open e) /\ (wf_e LAdd e = true -> A_open e) /\
@@ -490,14 +541,14 @@ Qed.
 End Expr.
 
 (* ---- the round trip of a value expression ---- *)
-Lemma value_expr_VE : forall fuel, value_expr fuel = VE fuel max_expr_depth.
-Proof. reflexivity. Qed.
+Lemma value_expr_VE : forall fuel i, value_expr fuel i = VE fuel max_expr_depth i.
+Proof. intros. apply value_expr_erase. Qed.
 
 Theorem value_expr_fmt : forall fuel v k,
   wf_vexpr v = true -> follow_v v k -> (length (show_vexpr v) <= fuel)%nat ->
   exists v', value_expr fuel (show_vexpr v ++ k) = POk v' (rest_vexpr v k) /\ same_v v v'.
 Proof.
-  intros fuel v k W F L. unfold wf_vexpr in W. apply andb_true_iff in W. destruct W as [W D].
-  apply Nat.leb_le in D. rewrite value_expr_VE.
-  exact (proj1 (all_levels fuel) v max_expr_depth k W D F L).
+  intros fuel v k W F L. unfold wf_vexpr in W. rewrite !andb_true_iff in W. destruct W as [[W D] HT].
+  apply Nat.leb_le in D. apply Nat.leb_le in HT. rewrite value_expr_VE.
+  exact (proj1 (all_levels fuel) v max_expr_depth k W D HT F L).
 Qed.
